@@ -153,6 +153,8 @@ class ConstEval(object):
                 rule, "table %s.%s is bound more than once" % (modname, name), node, defmod
             )
         try:
+            if self.module_mutates(defmod, self._defname(defmod, node)):
+                raise AnalysisError(rule, "table %s.%s is filled in by later module-level statements" % (modname, name), node, defmod)
             val = self.eval(defmod, node, rule)
         except AnalysisError as e:
             # a computed table (built by a helper, a loop, an update): fold the module's
@@ -168,6 +170,35 @@ class ConstEval(object):
             self.computed.add(key)
         self.cache[key] = val
         return val
+
+    def module_mutates(self, module, name):
+        """Is the module-level object `name` modified by a top-level statement after its binding
+        (item / attribute store, in-place method, also inside a top-level loop or if)?"""
+        key = ("mutates", module.name, name)
+        if key not in self.cache:
+            hit = False
+            for stmt in module.tree.body:
+                if isinstance(stmt, (ast.FunctionDef, ast.ClassDef, ast.AsyncFunctionDef)):
+                    continue
+                for n in ast.walk(stmt):
+                    if isinstance(n, (ast.Subscript, ast.Attribute)) and isinstance(n.ctx, (ast.Store, ast.Del)):
+                        b = n.value
+                        while isinstance(b, (ast.Subscript, ast.Attribute)):
+                            b = b.value
+                        if isinstance(b, ast.Name) and b.id == name:
+                            hit = True
+                    if (
+                        isinstance(n, ast.Call)
+                        and isinstance(n.func, ast.Attribute)
+                        and isinstance(n.func.value, ast.Name)
+                        and n.func.value.id == name
+                        and n.func.attr in ("update", "append", "extend", "setdefault", "pop", "insert", "clear", "remove", "sort", "reverse", "popitem", "move_to_end")
+                    ):
+                        hit = True
+                    if isinstance(n, ast.AugAssign) and isinstance(n.target, ast.Name) and n.target.id == name:
+                        hit = True
+            self.cache[key] = hit
+        return self.cache[key]
 
     def _defname(self, module, node):
         for n, v in module.assigns.items():
